@@ -112,3 +112,433 @@ Proof.
   split; [timeout 60 vm_compute; reflexivity|]. split; [timeout 60 vm_compute; reflexivity|].
   intros H. apply (f_equal (fun x => list_proj (snd x))) in H. revert H. timeout 60 vm_compute. discriminate.
 Qed.
+
+(* ================================================================== *)
+(* 2. Order-compatible and representable name sets                      *)
+
+(* the bytewise order and the segment-list order agree on the names: the file walk visits a
+   lex-ascending list of names in that same order *)
+Definition order_compatible (names : list str) : Prop := fs_sort names = names.
+
+(* what a file system can hold: no empty name, no empty path segment, no name that is also a
+   directory of another name *)
+Definition proper_dir_prefix (n m : str) : Prop := exists t, t <> [] /\ segs m = segs n ++ t.
+Definition representable (names : list str) : Prop :=
+  Forall (fun n => n <> [] /\ ~ In [] (segs n)) names
+  /\ forall n m, In n names -> In m names -> ~ proper_dir_prefix n m.
+
+Lemma sorted_fs_sort_id names : StronglySorted name_le names -> fs_sort names = names.
+Proof.
+  induction 1 as [|n r Hr IH Hall]; [reflexivity|]. cbn [fs_sort fold_right]. fold (fs_sort r). rewrite IH.
+  destruct r as [|m r']; [reflexivity|]. cbn [sinsert]. inversion Hall as [|x y Hnm _]; subst.
+  unfold name_le, segs_le in Hnm. destruct (segs_cmp (segs n) (segs m)); try reflexivity. congruence.
+Qed.
+
+Lemma order_compatible_iff names : order_compatible names <-> StronglySorted name_le names.
+Proof.
+  split; [|apply sorted_fs_sort_id]. unfold order_compatible. intros H. rewrite <- H. apply fs_sort_sorted.
+Qed.
+
+(* ================================================================== *)
+(* 3. Comparison up to the shorter length, and what the walk tests mean *)
+
+Fixpoint pcmp (a p : bytes) : comparison :=
+  match a, p with
+  | x :: xs, y :: ps => match N.compare x y with Eq => pcmp xs ps | c => c end
+  | _, _ => Eq
+  end.
+
+Lemma gtp_pcmp p : forall a, greater_than_prefix a p = match pcmp a p with Gt => true | _ => false end.
+Proof.
+  intros a. rewrite greater_than_prefix_alt. unfold lex_gtb, lex_ltb. revert a.
+  induction p as [|y ps IH]; intros a.
+  - cbn. destruct a; reflexivity.
+  - destruct a as [|x xs]; [reflexivity|]. cbn [length firstn lex_cmp pcmp].
+    rewrite (N.compare_antisym x y). destruct (N.compare x y); cbn [CompOpp]; auto.
+Qed.
+
+Lemma ltp_pcmp a : forall p, less_than_prefix a p = match pcmp a p with Lt => true | _ => false end.
+Proof.
+  unfold less_than_prefix, lex_ltb. induction a as [|x xs IH]; intros p.
+  - destruct p; reflexivity.
+  - destruct p as [|y ps]; [reflexivity|]. cbn [pcmp]. specialize (IH ps).
+    change (length (x :: xs) <? length (y :: ps))%nat with (length xs <? length ps)%nat.
+    destruct (length xs <? length ps)%nat; cbn [length firstn lex_cmp]; destruct (N.compare x y); auto.
+Qed.
+
+Lemma pcmp_ext d t : forall p, pcmp d p <> Eq -> pcmp (d ++ t) p = pcmp d p.
+Proof.
+  induction d as [|x xs IH]; intros p H; [cbn in H; congruence|]. destruct p as [|y ps]; [cbn in H; congruence|].
+  cbn [app pcmp] in *. destruct (N.compare x y); auto.
+Qed.
+
+Lemma pcmp_lt_lex n : forall c, pcmp n c = Lt -> lex_cmp n c = Lt.
+Proof.
+  induction n as [|x xs IH]; intros [|y ys] H; cbn in *; try discriminate.
+  destruct (N.compare x y); auto; discriminate.
+Qed.
+
+Lemma has_prefix_pcmp n : forall p, has_prefix n p = true -> pcmp n p = Eq.
+Proof.
+  induction n as [|x xs IH]; intros [|y ps] H; cbn in *; try reflexivity; try discriminate.
+  apply andb_prop in H. destruct H as [H1 H2]. apply N.eqb_eq in H1. subst. rewrite N.compare_refl. auto.
+Qed.
+
+Lemma has_prefix_app_inv n : forall p, has_prefix n p = true -> exists t, n = p ++ t.
+Proof.
+  induction n as [|x xs IH]; intros [|y ps] H; cbn in *; try discriminate; eauto.
+  apply andb_prop in H. destruct H as [H1 H2]. apply N.eqb_eq in H1. subst. destruct (IH _ H2) as [t ->]. eauto.
+Qed.
+
+(* ---- split / join ---- *)
+
+Lemma split_go_nonempty sep s : forall skip cur, split_go sep skip cur s <> [].
+Proof.
+  induction s as [|c r IH]; intros skip cur; cbn [split_go]; [discriminate|].
+  destruct skip; [|apply IH]. destruct (has_prefix (c :: r) sep); [discriminate|apply IH].
+Qed.
+
+Lemma join_segs_cons x l : l <> [] -> join_segs (x :: l) = x ++ s_sep ++ join_segs l.
+Proof. destruct l; [congruence|reflexivity]. Qed.
+
+Lemma join_split_go s : forall cur, join_segs (split_go s_sep 0 cur s) = rev cur ++ s.
+Proof.
+  induction s as [|c r IH]; intros cur; cbn [split_go].
+  - cbn. rewrite app_nil_r. reflexivity.
+  - unfold s_sep at 1. cbn [has_prefix]. rewrite has_prefix_nil, andb_true_r.
+    destruct (N.eqb_spec c 47) as [->|Hne].
+    + change (length s_sep - 1)%nat with 0%nat. rewrite join_segs_cons by apply split_go_nonempty.
+      rewrite (IH []). reflexivity.
+    + rewrite (IH (c :: cur)). cbn [rev]. rewrite <- app_assoc. reflexivity.
+Qed.
+
+Lemma join_segs_segs n : join_segs (segs n) = n.
+Proof. unfold segs, split. apply join_split_go. Qed.
+
+Lemma join_segs_app l1 : forall l2, l1 <> [] -> l2 <> [] ->
+  join_segs (l1 ++ l2) = join_segs l1 ++ s_sep ++ join_segs l2.
+Proof.
+  induction l1 as [|x r IH]; intros l2 H1 H2; [congruence|]. destruct r as [|y r'].
+  - cbn [app]. rewrite join_segs_cons by exact H2. reflexivity.
+  - change ((x :: y :: r') ++ l2) with (x :: ((y :: r') ++ l2)).
+    rewrite !join_segs_cons by discriminate. rewrite IH by (auto; discriminate). rewrite <- !app_assoc. reflexivity.
+Qed.
+
+Lemma dir_prefixes_spec ss : forall acc d, In d (dir_prefixes acc ss) ->
+  exists l1 l2, ss = l1 ++ l2 /\ l1 <> [] /\ l2 <> [] /\ d = join_segs (acc ++ l1).
+Proof.
+  induction ss as [|x r IH]; intros acc d H; [destruct H|]. cbn [dir_prefixes] in H.
+  destruct r as [|y r']; [destruct H|]. destruct H as [<-|H].
+  - exists [x], (y :: r'). repeat split; discriminate.
+  - apply IH in H. destruct H as [l1 [l2 [E [H1 [H2 ->]]]]]. exists (x :: l1), l2.
+    repeat split; try discriminate; auto.
+    + cbn [app]. rewrite E. reflexivity.
+    + rewrite <- app_assoc. reflexivity.
+Qed.
+
+(* a directory of a name is a proper string prefix of it, followed by the separator *)
+Lemma dir_prefix_extends n d : In d (dir_prefixes [] (segs n)) -> exists t, n = (d ++ s_sep) ++ t.
+Proof.
+  intros H. apply dir_prefixes_spec in H. destruct H as [l1 [l2 [E [H1 [H2 ->]]]]]. cbn [app].
+  exists (join_segs l2). rewrite <- app_assoc, <- join_segs_app by assumption. rewrite <- E. symmetry. apply join_segs_segs.
+Qed.
+
+(* ================================================================== *)
+(* 4. The two walks return the same page                                *)
+
+Section Walk.
+  Variables delim cursor prefix : str.
+  Variable maxres : nat.
+  Let step := list_step delim cursor prefix maxres.
+
+  Definition dirent (d : str) : str * bool := (d, true).
+
+  Lemma step_done a e : la_done a = true -> step a e = a.
+  Proof. intros H. unfold step, list_step. destruct e. rewrite H. reflexivity. Qed.
+
+  Lemma step_skipped a f isd : la_done a = false ->
+    match la_skip a with Some sd => has_prefix f sd | None => false end = true -> step a (f, isd) = a.
+  Proof. intros H1 H2. unfold step, list_step. rewrite H1, H2. reflexivity. Qed.
+
+  Lemma step_reset a f isd : la_done a = false ->
+    match la_skip a with Some sd => has_prefix f sd | None => false end = false ->
+    step a (f, isd) = step (mkLacc (la_count a) (la_found a) (la_prefixes a) (la_more a) None false) (f, isd).
+  Proof. intros H1 H2. unfold step, list_step. rewrite H1, H2. reflexivity. Qed.
+
+  Lemma step_dir c fo pr mo d :
+    step (mkLacc c fo pr mo None false) (d, true)
+    = if greater_than_prefix d prefix then mkLacc c fo pr mo None true
+      else if less_than_prefix d cursor || less_than_prefix d prefix
+           then mkLacc c fo pr mo (Some (d ++ s_sep)) false
+           else mkLacc c fo pr mo None false.
+  Proof. reflexivity. Qed.
+
+  Lemma step_file_gtp c fo pr mo n : greater_than_prefix n prefix = true ->
+    step (mkLacc c fo pr mo None false) (n, false) = mkLacc c fo pr mo None true.
+  Proof. intros H. unfold step, list_step. cbn. rewrite H. reflexivity. Qed.
+
+  Lemma step_file_inert c fo pr mo n : greater_than_prefix n prefix = false ->
+    lex_leb n cursor = true \/ has_prefix n prefix = false ->
+    step (mkLacc c fo pr mo None false) (n, false) = mkLacc c fo pr mo None false.
+  Proof.
+    intros H1 H2. unfold step, list_step. cbn. rewrite H1. destruct (lex_leb n cursor); [reflexivity|].
+    destruct H2 as [H2|H2]; [discriminate|]. rewrite H2. reflexivity.
+  Qed.
+
+  Lemma step_file_skip_none c fo pr mo n : la_skip (step (mkLacc c fo pr mo None false) (n, false)) = None.
+  Proof.
+    unfold step, list_step. cbn [la_done la_skip la_count la_found la_prefixes la_more].
+    repeat match goal with
+    | |- context [match ?x with _ => _ end] =>
+        lazymatch x with
+        | context [match _ with _ => _ end] => fail
+        | _ => destruct x
+        end
+    end; reflexivity.
+  Qed.
+
+  Definition obs_eq (a b : lacc) : Prop :=
+    la_found a = la_found b /\ la_prefixes a = la_prefixes b /\ la_more a = la_more b.
+
+  Lemma obs_eq_refl a : obs_eq a a.
+  Proof. repeat split. Qed.
+  Lemma obs_eq_trans a b c : obs_eq a b -> obs_eq b c -> obs_eq a c.
+  Proof. unfold obs_eq. intuition congruence. Qed.
+
+  (* directory entries never contribute an item, a prefix or the "more" flag *)
+  Lemma step_dir_obs a d : obs_eq (step a (d, true)) a.
+  Proof.
+    unfold step, list_step. destruct (la_done a); [apply obs_eq_refl|].
+    destruct (match la_skip a with Some d0 => has_prefix d d0 | None => false end); [apply obs_eq_refl|].
+    cbn [la_count la_found la_prefixes la_more]. destruct (greater_than_prefix d prefix); [repeat split|].
+    destruct (less_than_prefix d cursor || less_than_prefix d prefix); repeat split.
+  Qed.
+
+  Lemma step_file_gtp_obs a n : greater_than_prefix n prefix = true -> obs_eq (step a (n, false)) a.
+  Proof.
+    intros H. unfold step, list_step. destruct (la_done a); [apply obs_eq_refl|].
+    destruct (match la_skip a with Some d0 => has_prefix n d0 | None => false end); [apply obs_eq_refl|].
+    cbn [la_count la_found la_prefixes la_more]. rewrite H. repeat split.
+  Qed.
+
+  Lemma fold_dirs_obs ds : forall a, obs_eq (fold_left step (map dirent ds) a) a.
+  Proof.
+    induction ds as [|d r IH]; intros a; [apply obs_eq_refl|]. cbn [map fold_left].
+    eapply obs_eq_trans; [apply IH|apply step_dir_obs].
+  Qed.
+
+  Lemma fold_step_done l : forall a, la_done a = true -> fold_left step l a = a.
+  Proof. induction l as [|e r IH]; intros a H; [reflexivity|]. cbn [fold_left]. rewrite step_done by exact H. auto. Qed.
+
+  (* SkipDir is only ever set on a directory that is, up to its length, below the cursor or below
+     the prefix: everything under it is below too *)
+  Definition good_skip (sk : option str) : Prop :=
+    sk = None \/ exists d, sk = Some (d ++ s_sep) /\ (pcmp d cursor = Lt \/ pcmp d prefix = Lt).
+
+  Definition winv (af am : lacc) (rest : list str) : Prop :=
+    obs_eq af am /\ la_skip am = None /\
+    ((la_done af = false /\ la_done am = false /\ la_count af = la_count am /\ good_skip (la_skip af))
+     \/ (la_done am = true /\ (la_done af = true \/ Forall (fun m => greater_than_prefix m prefix = true) rest))).
+
+  Lemma ltp_lt d X : less_than_prefix d X = true -> pcmp d X = Lt.
+  Proof. rewrite ltp_pcmp. destruct (pcmp d X); congruence. Qed.
+
+  Lemma pcmp_lt_facts n X : pcmp n X = Lt ->
+    greater_than_prefix n X = false /\ has_prefix n X = false /\ lex_leb n X = true.
+  Proof.
+    intros H. split; [rewrite gtp_pcmp, H; reflexivity|]. split.
+    - destruct (has_prefix n X) eqn:E; [|reflexivity]. apply has_prefix_pcmp in E. congruence.
+    - unfold lex_leb. rewrite (pcmp_lt_lex _ _ H). reflexivity.
+  Qed.
+
+  (* the directory entries of one name *)
+  Lemma dirs_fold n c fo pr mo : forall ds sk,
+    (forall d, In d ds -> exists t, n = (d ++ s_sep) ++ t) -> good_skip sk ->
+    (exists sk', good_skip sk' /\ fold_left step (map dirent ds) (mkLacc c fo pr mo sk false) = mkLacc c fo pr mo sk' false)
+    \/ (greater_than_prefix n prefix = true
+        /\ fold_left step (map dirent ds) (mkLacc c fo pr mo sk false) = mkLacc c fo pr mo None true).
+  Proof.
+    induction ds as [|d r IH]; intros sk Hext Hsk; [left; exists sk; auto|]. cbn [map fold_left]. change (dirent d) with (d, true).
+    assert (Hr : forall d0, In d0 r -> exists t, n = (d0 ++ s_sep) ++ t) by (intros d0 H0; apply Hext; right; exact H0).
+    destruct (match sk with Some sd => has_prefix d sd | None => false end) eqn:Em.
+    - rewrite step_skipped by (cbn; auto). apply IH; auto.
+    - rewrite step_reset by (cbn; auto). cbn [la_count la_found la_prefixes la_more]. rewrite step_dir.
+      destruct (greater_than_prefix d prefix) eqn:Eg.
+      + right. rewrite fold_step_done by reflexivity. split; [|reflexivity].
+        destruct (Hext d (or_introl eq_refl)) as [t ->]. rewrite gtp_pcmp in Eg |- *.
+        rewrite <- app_assoc, pcmp_ext; destruct (pcmp d prefix); congruence.
+      + destruct (less_than_prefix d cursor || less_than_prefix d prefix) eqn:El.
+        * apply IH; auto. right. exists d. split; [reflexivity|]. apply orb_prop in El.
+          destruct El as [El|El]; [left|right]; apply ltp_lt; exact El.
+        * apply IH; auto. left. reflexivity.
+  Qed.
+
+  Lemma good_skip_under n sk sd : good_skip sk -> sk = Some sd -> has_prefix n sd = true ->
+    pcmp n cursor = Lt \/ pcmp n prefix = Lt.
+  Proof.
+    intros [->|[d [-> Hd]]] E Hp; [discriminate|]. injection E as <-.
+    apply has_prefix_app_inv in Hp. destruct Hp as [t ->]. rewrite <- app_assoc.
+    destruct Hd as [Hd|Hd]; [left|right]; rewrite pcmp_ext; congruence.
+  Qed.
+
+  (* the file entry of a name, both walks in step *)
+  Lemma file_sim n c fo pr mo sk rest : good_skip sk -> Forall (lex_lt n) rest ->
+    winv (step (mkLacc c fo pr mo sk false) (n, false)) (step (mkLacc c fo pr mo None false) (n, false)) rest.
+  Proof.
+    intros Hsk Hrest.
+    destruct (match sk with Some sd => has_prefix n sd | None => false end) eqn:Em.
+    - rewrite step_skipped by (cbn; auto). destruct sk as [sd|]; [|discriminate].
+      destruct (good_skip_under n _ sd Hsk eq_refl Em) as [Hc|Hp].
+      + destruct (pcmp_lt_facts _ _ Hc) as [_ [_ Hle]].
+        destruct (greater_than_prefix n prefix) eqn:Eg.
+        * rewrite step_file_gtp by exact Eg. split; [repeat split|]. split; [reflexivity|]. right. split; [reflexivity|].
+          right. eapply Forall_impl; [|exact Hrest]. cbn. intros m Hm. eapply gtp_mono; eauto.
+        * rewrite step_file_inert by auto. split; [repeat split|]. split; [reflexivity|]. left. auto.
+      + destruct (pcmp_lt_facts _ _ Hp) as [Hg [Hnp _]].
+        rewrite step_file_inert by auto. split; [repeat split|]. split; [reflexivity|]. left. auto.
+    - rewrite step_reset by (cbn; auto). cbn [la_count la_found la_prefixes la_more].
+      set (a' := step (mkLacc c fo pr mo None false) (n, false)).
+      split; [apply obs_eq_refl|]. split; [apply step_file_skip_none|].
+      destruct (la_done a') eqn:Ed; [right; auto|]. left. repeat split; auto.
+      left. apply step_file_skip_none.
+  Qed.
+
+  (* one name: its new directories, then the file *)
+  Lemma block_sim n ds rest af am :
+    (forall d, In d ds -> exists t, n = (d ++ s_sep) ++ t) -> Forall (lex_lt n) rest ->
+    winv af am (n :: rest) ->
+    winv (fold_left step (map dirent ds ++ [(n, false)]) af) (step am (n, false)) rest.
+  Proof.
+    intros Hext Hrest [Hobs [Hskm Hcase]]. rewrite fold_left_app. cbn [fold_left].
+    destruct Hcase as [[Hdf [Hdm [Hc Hsk]]]|[Hdm Hdead]].
+    - destruct af as [c fo pr mo sk df], am as [c' fo' pr' mo' sk' dm]. unfold obs_eq in Hobs.
+      cbn in Hobs, Hdf, Hdm, Hc, Hsk, Hskm. destruct Hobs as [-> [-> ->]]. subst.
+      destruct (dirs_fold n c' fo' pr' mo' ds sk Hext Hsk) as [[sk1 [Hsk1 ->]]|[Hg ->]].
+      + apply file_sim; assumption.
+      + rewrite step_done by reflexivity. rewrite step_file_gtp by exact Hg.
+        split; [repeat split|]. split; [reflexivity|]. right. auto.
+    - rewrite (step_done am) by exact Hdm. split; [|split; [exact Hskm|right; split; [exact Hdm|]]].
+      + destruct Hdead as [Hdf|Hall].
+        * rewrite (fold_step_done _ af Hdf), step_done by exact Hdf. exact Hobs.
+        * inversion Hall as [|x y Hn _]; subst.
+          eapply obs_eq_trans; [apply step_file_gtp_obs; exact Hn|].
+          eapply obs_eq_trans; [apply fold_dirs_obs|exact Hobs].
+      + destruct Hdead as [Hdf|Hall].
+        * left. rewrite (fold_step_done _ af Hdf), step_done by exact Hdf. exact Hdf.
+        * right. inversion Hall; assumption.
+  Qed.
+
+  Lemma fs_entries_go_cons seen n r :
+    fs_entries_go seen (n :: r)
+    = (map dirent (filter (fun d => negb (existsb (beqb d) seen)) (dir_prefixes [] (segs n))) ++ [(n, false)])
+      ++ fs_entries_go (filter (fun d => negb (existsb (beqb d) seen)) (dir_prefixes [] (segs n)) ++ seen) r.
+  Proof. cbn [fs_entries_go]. rewrite <- app_assoc. reflexivity. Qed.
+
+  Lemma walk_sim names : forall seen af am, StronglySorted lex_lt names -> winv af am names ->
+    obs_eq (fold_left step (fs_entries_go seen names) af) (fold_left step (ents names) am).
+  Proof.
+    induction names as [|n r IH]; intros seen af am Hs Hw; [exact (proj1 Hw)|].
+    apply StronglySorted_inv in Hs. destruct Hs as [Hr Hall].
+    rewrite fs_entries_go_cons, fold_left_app. cbn [ents map fold_left]. apply IH; [exact Hr|].
+    apply block_sim; auto. intros d Hd. apply filter_In in Hd. apply dir_prefix_extends. tauto.
+  Qed.
+
+  Lemma step_root a : la_done a = false -> la_skip a = None ->
+    step a ([], true) = mkLacc (la_count a) (la_found a) (la_prefixes a) (la_more a) None false.
+  Proof.
+    intros H1 H2. rewrite step_reset by (try rewrite H2; auto). rewrite step_dir.
+    rewrite gtp_pcmp, !ltp_pcmp. reflexivity.
+  Qed.
+
+  (* the file walk over the names in lex order = the memory walk *)
+  Theorem walk_equiv_sorted names : StronglySorted lex_lt names ->
+    list_walk delim cursor prefix maxres (([], true) :: fs_entries_go [] names)
+    = list_walk delim cursor prefix maxres (ents names).
+  Proof.
+    intros Hs. unfold list_walk. cbn [fold_left]. fold step. rewrite step_root by reflexivity.
+    cbn [la_count la_found la_prefixes la_more].
+    destruct (walk_sim names [] (mkLacc 0 [] [] false None false) (mkLacc 0 [] [] false None false) Hs) as [H1 [H2 H3]].
+    { split; [apply obs_eq_refl|]. split; [reflexivity|]. left. repeat split. left. reflexivity. }
+    fold step. rewrite H1, H2, H3. reflexivity.
+  Qed.
+End Walk.
+
+(* fs_walk_equiv, from order-compatibility alone (the model needs no more) *)
+Theorem fs_walk_equiv_order (bk : bucket) delim cursor prefix maxres :
+  asorted bk -> order_compatible (map fst bk) ->
+  list_walk delim cursor prefix maxres (fs_entries bk) = list_walk delim cursor prefix maxres (mem_entries bk).
+Proof.
+  intros Hs Hoc. unfold fs_entries. rewrite Hoc, mem_entries_ents. apply walk_equiv_sorted. apply asorted_names. exact Hs.
+Qed.
+
+Theorem fs_walk_equiv (bk : bucket) delim cursor prefix maxres :
+  asorted bk -> representable (map fst bk) -> order_compatible (map fst bk) ->
+  list_walk delim cursor prefix maxres (fs_entries bk) = list_walk delim cursor prefix maxres (mem_entries bk).
+Proof. intros Hs _ Hoc. apply fs_walk_equiv_order; assumption. Qed.
+
+Corollary fs_walk_equiv_nodelim (bk : bucket) cursor prefix maxres :
+  asorted bk -> order_compatible (map fst bk) ->
+  list_walk [] cursor prefix maxres (fs_entries bk)
+  = (firstn maxres (filter (sel cursor prefix) (map fst bk)), [],
+     (maxres <? length (filter (sel cursor prefix) (map fst bk)))%nat).
+Proof. intros Hs Hoc. rewrite fs_walk_equiv_order by assumption. apply page_spec_bucket. exact Hs. Qed.
+
+(* ================================================================== *)
+(* 5. The two stores answer alike on compatible states                  *)
+
+Definition fs_compatible (s : state) : Prop :=
+  forall b bk, get_bucket s b = Some bk ->
+    asorted bk /\ representable (map fst bk) /\ order_compatible (map fst bk).
+
+Theorem stores_equivalent s r : fs_compatible s -> handle_fs s r = handle s r.
+Proof.
+  intros Hc. destruct r; try reflexivity. cbn [handle_fs handle]. change gcsDefaultMaxResults with 1000.
+  destruct (match maxres with
+            | Some ms => match parse_int ms with Some z => if z <? 1 then None else Some z | None => None end
+            | None => Some 1000
+            end) as [m|]; [|reflexivity].
+  destruct (get_bucket s b) as [bk|] eqn:E; [|reflexivity].
+  destruct (Hc b bk E) as [Hs [_ Hoc]]. rewrite fs_walk_equiv_order by assumption. reflexivity.
+Qed.
+
+(* every intermediate state of the run is compatible *)
+Fixpoint fs_compatible_run (s : state) (rs : list req) : Prop :=
+  match rs with
+  | [] => True
+  | r :: rest => fs_compatible s /\ fs_compatible_run (fst (handle s r)) rest
+  end.
+
+Theorem run_fs_equiv rs : forall s, fs_compatible_run s rs -> run_fs s rs = run s rs.
+Proof.
+  induction rs as [|r rest IH]; intros s H; [reflexivity|]. destruct H as [H1 H2].
+  cbn [run_fs run]. rewrite (stores_equivalent s r H1). destruct (handle s r) as [s1 rsp]. cbn [fst] in H2.
+  rewrite (IH s1 H2). reflexivity.
+Qed.
+
+(* soundness of the file walk without any hypothesis on the names: every item returned is a
+   stored object whose name has the prefix and is above the cursor (completeness is what fails) *)
+Theorem prune_sound_partial s b prefix delim cursor maxres s' items prefixes next :
+  handle_fs s (RList b prefix delim cursor maxres) = (s', mkResp 200 (BList items prefixes next)) ->
+  Forall (fun v => exists o, find_obj s b (v_name v) = Some o /\ v = view b (v_name v) o
+                    /\ lex_ltb (match cursor with Some c => c | None => [] end) (v_name v) = true
+                    /\ has_prefix (v_name v) prefix = true) items.
+Proof.
+  cbn [handle_fs].
+  destruct (match maxres with
+            | Some ms => match parse_int ms with Some z => if z <? 1 then None else Some z | None => None end
+            | None => Some gcsDefaultMaxResults
+            end) as [m|]; [|discriminate].
+  unfold find_obj. destruct (get_bucket s b) as [bk|] eqn:E; [|discriminate].
+  set (cur := match cursor with Some c => c | None => [] end).
+  pose proof (page_sound delim cur prefix (Z.to_nat m) (fs_entries bk)) as Hps.
+  destruct (list_walk delim cur prefix (Z.to_nat m) (fs_entries bk)) as [[found prs] more].
+  destruct Hps as [Hf _]. intros H. injection H as _ <- _ _. clear - Hf.
+  induction Hf as [|n r [_ [H1 H2]] _ IH]; [constructor|]. cbn [flat_map]. apply Forall_app. split; [|exact IH].
+  destruct (alookup n bk) as [o|] eqn:El; constructor; [|constructor]. cbn [view v_name]. exists o. auto.
+Qed.
+
+(* non-vacuity: a bucket with nested names on which the orders agree *)
+Definition c09_ok_state : state :=
+  fst (run init_state [RUploadMedia c09_bucket [97; 47; 98]%N [116]%N [1]%N c09_cp0;
+                       RUploadMedia c09_bucket [97; 47; 99; 47; 100]%N [116]%N [2]%N c09_cp0;
+                       RUploadMedia c09_bucket [101]%N [116]%N [3]%N c09_cp0]).
